@@ -270,6 +270,17 @@ impl<'de> SerdeDeserializer<'de> for &mut Deserializer<'de> {
                 }
                 Err(Error::InvalidValue("expected single char".into()))
             }
+            // a char is written as a string, which travels as a binary
+            OwnedTerm::Binary(b) => {
+                let s = str::from_utf8(b).map_err(|e| Error::InvalidValue(e.to_string()))?;
+                let mut chars = s.chars();
+                if let Some(c) = chars.next()
+                    && chars.next().is_none()
+                {
+                    return visitor.visit_char(c);
+                }
+                Err(Error::InvalidValue("expected single char".into()))
+            }
             _ => Err(Error::TypeMismatch {
                 expected: "string".into(),
                 found: format!("{:?}", self.term),
